@@ -389,7 +389,17 @@ class Inliner:
                 continue
             stmt, ci = defs[0]
             # every binding of the name is a construction of this class; parameters and loop targets of the same name disqualify
-            if sum(1 for x in _own(fn) if isinstance(x, ast.Name) and x.id == v and isinstance(x.ctx, ast.Store)) != len(defs) or v in {a.arg for a in fn.args.args + fn.args.kwonlyargs}:
+            n_stores = sum(1 for x in _own(fn) if isinstance(x, ast.Name) and x.id == v and isinstance(x.ctx, ast.Store))
+            n_none = sum(1 for x in _own(fn) if ((isinstance(x, ast.Assign) and len(x.targets) == 1 and isinstance(x.targets[0], ast.Name) and x.targets[0].id == v) or (isinstance(x, ast.AnnAssign) and isinstance(x.target, ast.Name) and x.target.id == v))
+                         and isinstance(x.value, ast.Constant) and x.value.value is None)
+            if v in {a.arg for a in fn.args.args + fn.args.kwonlyargs} or n_stores != len(defs) + n_none:
+                continue
+            if n_none:
+                # `v = C(…)` on one arm, `v = None` on the other: only the callable-object reading applies
+                methods = {f.name: f for f in self.P.funcs.values() if f.cls is ci and f.parent is None}
+                if self._late and self._object_to_closures(caller, v, defs, ci, methods):
+                    self.inlined.append(f"{ci.module.name}:{ci.name} (object `{v}` as closures) into {caller.fq}")
+                    done += 1
                 continue
             methods = {f.name: f for f in self.P.funcs.values() if f.cls is ci and f.parent is None}
             props = {m: f for m, f in methods.items() if any(ast.unparse(d) == "property" for d in f.node.decorator_list)}
@@ -414,12 +424,187 @@ class Inliner:
             finally:
                 self._local_obj = None
             if not ok:
+                # the object leaves the function (handed on as a callable, or a bound method of it is): its methods become
+                # closures over its fields, which is what they are
+                if self._late and self._object_to_closures(caller, v, defs, ci, methods):
+                    self.inlined.append(f"{ci.module.name}:{ci.name} (object `{v}` as closures) into {caller.fq}")
+                    done += 1
                 continue
             fn.body = work.body
             ast.fix_missing_locations(fn)
             self.inlined.append(f"{ci.module.name}:{ci.name} (local object `{v}`) into {caller.fq}")
             done += 1
         return done
+
+    def _object_to_closures(self, caller, v, defs, ci, methods) -> bool:
+        """`guard = Guard(token, stream, rid); await guard.check(); wait(check=guard.check)` — or a class with `__call__`
+        whose instance is handed on as the callable — with Guard a new class: after the constructor's statements every
+        method becomes a nested function of the user (`guard__check`; `__call__` keeps the object's name) reading and
+        writing the fields as the user's locals (`nonlocal guard__sent`).  That is the closure the class replaced."""
+        fn = caller.node
+        init = methods.get("__init__")
+        if init is None or self.inlinable_def_init(init) is not None:
+            return False
+        meths = {n: g for n, g in methods.items() if n != "__init__"}
+        if not meths or any(g.node.decorator_list for g in methods.values()):
+            return False
+        if any(n.startswith("__") and n != "__call__" for n in meths):
+            return False
+        # nested functions of the user must not know the object
+        for x in ast.walk(fn):
+            if _is_func(x) and x is not fn and any(isinstance(y, ast.Name) and y.id == v for y in ast.walk(x)):
+                return False
+        work = copy.deepcopy(fn)
+        texts = {ast.unparse(s_) for s_, _c in defs}
+        wstmts = [x for x in _own(work) if isinstance(x, (ast.Assign, ast.AnnAssign)) and ast.unparse(x) in texts]
+        if len(wstmts) != len(defs):
+            return False
+        init_fields = {t.attr for x in ast.walk(init.node) for t in ([x] if isinstance(x, ast.Attribute) else []) if isinstance(t.ctx, ast.Store) and isinstance(t.value, ast.Name) and t.value.id == init.node.args.args[0].arg}
+        if init_fields & set(methods):
+            return False
+        # the methods as closures
+        closures: List[ast.stmt] = []
+        for mname, g in meths.items():
+            node = copy.deepcopy(g.node)
+            if not node.args.args or node.args.vararg or node.args.kwarg:
+                return False
+            me = node.args.args[0].arg
+            node.args.args = node.args.args[1:]
+            stored = set()
+            bad = []
+
+            class T(ast.NodeTransformer):
+                def visit_Attribute(self_, a):
+                    if isinstance(a.value, ast.Name) and a.value.id == me:
+                        if a.attr in methods:
+                            if not isinstance(a.ctx, ast.Load) or a.attr == "__init__":
+                                bad.append(a)
+                            return ast.copy_location(ast.Name(id=(v if a.attr == "__call__" else f"{v}__{a.attr.lstrip('_')}"), ctx=ast.Load()), a)
+                        if a.attr not in init_fields:
+                            bad.append(a)
+                        if not isinstance(a.ctx, ast.Load):
+                            stored.add(a.attr)
+                        return ast.copy_location(ast.Name(id=f"{v}__{a.attr.lstrip('_')}", ctx=a.ctx), a)
+                    self_.generic_visit(a)
+                    return a
+
+                def visit_Name(self_, n_):
+                    if n_.id == me:
+                        bad.append(n_)
+                    return n_
+
+            node.body = [T().visit(x) for x in node.body]
+            if bad:
+                return False
+            try:
+                self._bring_names(caller, g)
+            except NotInlinable:
+                return False
+            if stored:
+                k = 1 if node.body and isinstance(node.body[0], ast.Expr) and isinstance(node.body[0].value, ast.Constant) and isinstance(node.body[0].value.value, str) else 0
+                node.body.insert(k, ast.Nonlocal(names=sorted(f"{v}__{f.lstrip('_')}" for f in stored)))
+            node.name = v if mname == "__call__" else f"{v}__{mname.lstrip('_')}"
+            node.returns = None
+            for a in node.args.args + node.args.kwonlyargs:
+                a.annotation = None
+            closures.append(node)
+        # the constructor(s)
+        for wstmt in wstmts:
+            call = wstmt.value
+            place = None
+            for holder, field in self._stmt_lists(work):
+                if wstmt in getattr(holder, field):
+                    place = (holder, field)
+            if place is None:
+                return False
+            stmts = getattr(*place)
+            i = stmts.index(wstmt)
+            fake = ast.Expr(value=ast.Call(func=ast.Attribute(value=ast.Name(id=v, ctx=ast.Load()), attr="__init__", ctx=ast.Load()), args=call.args, keywords=call.keywords))
+            ast.copy_location(fake, wstmt)
+            ast.fix_missing_locations(fake)
+            self._local_obj = (v, ci, methods)
+            try:
+                rep = self._expand(caller, fake, "expr", fake.value, init, False)
+            except NotInlinable:
+                return False
+            finally:
+                self._local_obj = None
+            stmts[i:i + 1] = rep + [ast.copy_location(copy.deepcopy(c), wstmt) for c in closures]
+        # the user's own references
+        has_call = "__call__" in meths
+        parents = {}
+        for x in ast.walk(work):
+            for c in ast.iter_child_nodes(x):
+                parents[id(c)] = x
+        inserted = {id(y) for x in ast.walk(work) if _is_func(x) and x is not work and x.name in {c.name for c in closures} for y in ast.walk(x)}
+        for x in ast.walk(work):
+            if isinstance(x, ast.Name) and x.id == v and id(x) not in inserted:
+                par = parents.get(id(x))
+                if isinstance(par, ast.Attribute) and par.value is x:
+                    if par.attr in methods and (par.attr == "__init__" or not isinstance(par.ctx, ast.Load)):
+                        return False
+                    if par.attr not in methods and par.attr not in init_fields:
+                        return False
+                    continue
+                if isinstance(x.ctx, ast.Store):
+                    continue  # `v = None` on the other arm
+                if not has_call:
+                    return False
+
+        class U(ast.NodeTransformer):
+            def visit_FunctionDef(self_, n_):
+                return n_ if (n_ is not work and n_.name in {c.name for c in closures}) else self_.generic_visit(n_) or n_
+
+            visit_AsyncFunctionDef = visit_FunctionDef
+
+            def visit_Attribute(self_, a):
+                if isinstance(a.value, ast.Name) and a.value.id == v:
+                    if a.attr in methods:
+                        return ast.copy_location(ast.Name(id=(v if a.attr == "__call__" else f"{v}__{a.attr.lstrip('_')}"), ctx=ast.Load()), a)
+                    return ast.copy_location(ast.Name(id=f"{v}__{a.attr.lstrip('_')}", ctx=a.ctx), a)
+                self_.generic_visit(a)
+                return a
+
+        work.body = [U().visit(x) for x in work.body]
+
+        class AA(ast.NodeTransformer):
+            def visit_AnnAssign(self_, node):
+                if isinstance(node.target, ast.Name) and node.target.id.startswith(f"{v}__") and node.value is not None:
+                    return ast.copy_location(ast.Assign(targets=[node.target], value=node.value, type_comment=None), node)
+                return node
+
+        work.body = [AA().visit(x) for x in work.body]
+        self._forward_captured(work, f"{v}__")
+        fn.body = work.body
+        ast.fix_missing_locations(fn)
+        low = self.__dict__.setdefault("lowered", set())
+        for c in closures:
+            low.add(f"{caller.fq}.<locals>.{c.name}")
+        return True
+
+    def _forward_captured(self, work, prefix) -> None:
+        """A field that is stored once, from a name of the user that is itself never rebound afterwards (`guard__stream =
+        write_stream`), is that name: the closures read the user's variable, as the closure the class replaced did."""
+        def stores_of(name):
+            return [x for x in ast.walk(work) if isinstance(x, ast.Name) and x.id == name and isinstance(x.ctx, (ast.Store, ast.Del))]
+
+        params = {a.arg for a in work.args.posonlyargs + work.args.args + work.args.kwonlyargs}
+        nonlocals = {n_ for x in ast.walk(work) if isinstance(x, ast.Nonlocal) for n_ in x.names}
+        for holder, field in self._stmt_lists(work):
+            lst = getattr(holder, field)
+            for st in list(lst):
+                if not (isinstance(st, ast.Assign) and len(st.targets) == 1 and isinstance(st.targets[0], ast.Name) and st.targets[0].id.startswith(prefix) and isinstance(st.value, ast.Name)):
+                    continue
+                f_, src = st.targets[0].id, st.value.id
+                if f_ in nonlocals or len(stores_of(f_)) != 1:
+                    continue
+                n_src = len(stores_of(src))
+                if not ((src in params and n_src == 0) or (src not in params and n_src == 1 and src not in nonlocals)):
+                    continue
+                for x in ast.walk(work):
+                    if isinstance(x, ast.Name) and x.id == f_ and isinstance(x.ctx, ast.Load):
+                        x.id = src
+                lst[lst.index(st)] = ast.copy_location(ast.Pass(), st)
 
     def _single_method_call(self, fn, v, methods, props):
         """The call `v.m(…)` when that is the only thing the function does with `v`, else None."""
@@ -651,7 +836,9 @@ class Inliner:
                 if not (isinstance(par, ast.Attribute) and par.value is x):
                     return False
                 gp = parents.get(id(par))
-                if isinstance(gp, ast.Call) and gp.func is par and (par.attr in methods or par.attr.startswith("__")):
+                if par.attr in methods:
+                    return False  # a bound method handed on (`check=v.check`), or a call that could not be read at its site
+                if isinstance(gp, ast.Call) and gp.func is par and par.attr.startswith("__"):
                     return False  # a method call that could not be read at its site (calling a stored callable — `v.on_done()` with on_done a field — is a plain call of that local)
         # 5. `v.attr` → `v__attr`
         class SC(ast.NodeTransformer):
@@ -1083,7 +1270,52 @@ class Inliner:
             return None
         return "method called on another object"
 
+    def _bring_names(self, caller, g) -> None:
+        """A helper read into a function of another module keeps the meaning of the module-level names it uses: a name the
+        caller's module does not bind is imported there; a name it binds to something else makes the helper unreadable here."""
+        if caller.module is g.module:
+            return
+        import builtins
+
+        P = self.P
+        fn = g.node
+        bound = {a.arg for a in fn.args.posonlyargs + fn.args.args + fn.args.kwonlyargs}
+        loads = set()
+        for n in ast.walk(fn):
+            if isinstance(n, ast.Name):
+                (loads if isinstance(n.ctx, ast.Load) else bound).add(n.id)
+            elif isinstance(n, ast.ExceptHandler) and n.name:
+                bound.add(n.name)
+            elif isinstance(n, ast.alias):
+                bound.add((n.asname or n.name).split(".")[0])
+        top = caller
+        while top.parent is not None:
+            top = top.parent
+        caller_locals = {n.id for n in ast.walk(top.node) if isinstance(n, ast.Name) and isinstance(n.ctx, ast.Store)} | {a.arg for n in ast.walk(top.node) if isinstance(n, ast.arguments) for a in n.posonlyargs + n.args + n.kwonlyargs}
+        for name in sorted(loads - bound):
+            if hasattr(builtins, name):
+                continue
+            src = P.resolve_name(g.module.name, name)
+            if src == (None, None):
+                continue
+            if name in caller_locals:
+                raise NotInlinable(f"`{name}` is a local at the call site")
+            dst = P.resolve_name(caller.module.name, name)
+            if dst == (None, None):
+                imp = ast.ImportFrom(module=g.module.name, names=[ast.alias(name=name, asname=None)], level=0)
+                caller.module.tree.body.insert(0, ast.fix_missing_locations(imp))
+                caller.module.imports[name] = (g.module.name, name)
+                continue
+            a, b = src[1], dst[1]
+            if src[0] == "const" and dst[0] == "const":
+                same = a[1] is b[1] or ast.dump(a[1]) == ast.dump(b[1])
+            else:
+                same = src[0] == dst[0] and (a is b or a == b)
+            if not same:
+                raise NotInlinable(f"`{name}` names something else at the call site")
+
     def _expand(self, caller, s, kind, call, g, negate) -> List[ast.stmt]:
+        self._bring_names(caller, g)
         self.counter += 1
         k = self.counter
         fn = g.node
